@@ -592,6 +592,9 @@ def rule_compression(ctx: Ctx):
                             if isinstance(x, ast.Name) and site.module.enclosing_function(n) is site.subscribe_fn:
                                 (created if top else elsewhere).add(x.id)
             created -= elsewhere
+            # ... or a slot of a state holder created there (state.codec = zlib.decompressobj(...))
+            from .common import subscribe_inits
+            created |= {name for name, v in subscribe_inits(site).items() if ("." in name or "[" in name) and isinstance(v, ast.Call)}
             used = set()
             for which in ("on_next", "on_completed"):
                 site, sk = _codec_skeleton(ctx, rel, fname, which)
